@@ -17,6 +17,7 @@ const (
 	UStmtOut    = "dmlO" // statement-format DML outside a transaction
 	UStmtIn     = "dmlI" // BEGIN, statement-format DML, XID
 	URotate     = "rot"  // log rotation
+	URotateStop = "rotS" // the file ends with a STOP event (server shutdown); the next file is announced by the fake rotate only
 	UGTID       = "gtid"
 	UAnonGTID   = "anon"
 	UPrevGTIDs  = "prev"
@@ -168,9 +169,13 @@ func (g *Gen) Build(units []string) *ref.History {
 		cur.Events = append(cur.Events, g.Noise(UPrevGTIDs)...)
 	}
 	for _, u := range units {
-		if u == URotate {
+		if u == URotate || u == URotateStop {
 			next := g.name(len(h.Files))
-			cur.Events = append(cur.Events, ref.Rot(g.tick(), next))
+			if u == URotate {
+				cur.Events = append(cur.Events, ref.Rot(g.tick(), next))
+			} else {
+				cur.Events = append(cur.Events, &ref.AEvent{Kind: ref.AStop, TS: g.tick()})
+			}
 			cur = &ref.File{Name: next}
 			if len(h.Files) < len(g.FileBase) {
 				cur.Base = g.FileBase[len(h.Files)]
